@@ -120,6 +120,9 @@ ALL_FEATURES = [
                             # instantiated twice with the same payload type and different bases;
                             # rarely (and on purpose) a function that mixes variants of the two -
                             # an ill-typed program that no order may accept
+    "generic_nested_fns",   # a generic function that declares a local helper function whose header
+                            # uses the comptime parameter, instantiated by different callers with
+                            # types that share a machine type and differ in meaning (i64 / u64)
     "indirect_refs",        # variants may name a definition of another file *through a third file*:
                             # imp1.imp2.name
 ]
@@ -137,6 +140,7 @@ THEMES = [
      "loops", "lambdas", "defer_break", "comptime_locals", "value_alias", "indirect_refs"],
     # generics
     ["generic_type", "generic_int", "generic_twins", "generic_dependent", "type_fn", "global_type_inst",
+     "generic_nested_fns",
      "generic_enums", "generic_enum_units", "generic_enum_bases", "generic_alias_param",
      "distinct_generics", "distinct", "comptime_int", "structs", "indirect_refs"],
     # the other type constructors and what codegen makes of them
@@ -1392,6 +1396,49 @@ class _Gen:
             self.p.pins[b] = 2 if self.p.pins[a] == 1 or r.random() < 0.5 else 1
             nfile += 1
 
+    def mk_generic_nested(self):
+        """a generic function with a local helper whose header is written with the comptime
+        parameter; one caller per type argument. The type arguments of a pair share their machine
+        type, so that a helper typed for the wrong instantiation still compiles - and compares
+        (or divides) with the wrong signedness."""
+        r = self.rnd
+        name = self.fresh("nh")
+        it = Item(name, "generic")
+        it.is_function = True
+        helper = r.choice(["named", "named", "lambda"])
+        body = r.choice(["if x > y { x } else { y }", "if x < y { x } else { y }", "x / y"])
+        if helper == "named":
+            decl = "pick :: (x: T, y: T) -> T { %s };" % body
+        else:
+            decl = "pick := (x: T, y: T) -> T { %s };" % body
+        it.render = lambda ref: "%s :: (comptime T: type, a: T, b: T) -> T {\n    %s\n    pick(a, b)\n}" % (name, decl)
+        it.uses = lambda ref, tmp: []
+        self.p.add(it)
+        signed, unsigned, big = r.choice([("i64", "u64", "18446744073709551000"),
+                                          ("i32", "u32", "4294967000"),
+                                          ("i16", "u16", "65000")])
+        small = r.randint(2, 7)
+        group = []
+        for t in r.sample([signed, unsigned], 2):
+            cname = self.fresh("nc")
+            c = Item(cname, "fn")
+            c.is_function = True
+            c.deps.add(name)
+            if t == signed:
+                c.render = (lambda ref, cname=cname, t=t: "%s :: (a: i64) -> i64 {\n    lo : %s = 0 - %s.(a %% 50) - 1;\n    i64.(%s(%s, lo, %d))\n}"
+                            % (cname, t, t, ref(name), t, small))
+            else:
+                c.render = (lambda ref, cname=cname, t=t: "%s :: (a: i64) -> i64 {\n    big : %s = %s;\n    i64.(%s(%s, big + %s.(a %% 50), %d) %% 1000)\n}"
+                            % (cname, t, big, ref(name), t, t, small))
+            arg = r.randint(0, 49)
+            c.uses = (lambda ref, tmp, cname=cname, arg=arg: ["emit(%s(%d));" % (ref(cname), arg)])
+            self.p.add(c)
+            group.append(cname)
+        self.p.twins.append(group)
+        self.p.twin_callee = getattr(self.p, "twin_callee", {})
+        for n in group:
+            self.p.twin_callee[n] = name
+
     def mk_generic_dependent(self):
         r = self.rnd
         name = self.fresh("pk")
@@ -2047,7 +2094,10 @@ class _Gen:
 
         def render(ref):
             body = ["tbl := comptime { i64.[%s] };" % ", ".join("(%s) %% 997" % e(ref) for e in elems)]
-            terms = ["tbl[usize.(a %% %d)]" % n, "tbl[0]"]
+            # `a` can be negative (callers pass constants): keep the index inside the table - a
+            # runtime trap names the file of the function in its message, which is not behaviour
+            # that the split into files may not change
+            terms = ["tbl[usize.((a %% %d + %d) %% %d)]" % (n, n, n), "tbl[0]"]
             if extra:
                 mk, sn, arg = extra
                 body.append("rec := comptime { %s(%s) };" % (ref(mk), arg))
@@ -2456,6 +2506,8 @@ class _Gen:
             menu.append(("generic_twins", self.mk_generic_twins, 1))
         if "generic_dependent" in f:
             menu.append(("generic_dependent", self.mk_generic_dependent, 1))
+        if "generic_nested_fns" in f:
+            menu.append(("generic_nested_fns", self.mk_generic_nested, 1))
         if "floats" in f:
             menu.append(("float", self.mk_float, 2))
         if "optionals" in f:
